@@ -298,8 +298,14 @@ class SimDevice(object):
 
     def _sense(self, kind, target):
         def f():
+            try:
+                r = self.env.sense(self, kind, target)
+            except self.ns.UnsupportedTargetError:
+                raise                               # refused by the driver before the carrier is switched on
+            except BaseException:
+                self.field = True
+                raise
             self.field = True
-            r = self.env.sense(self, kind, target)
             if r is None:
                 return None
             r = dict(r)
